@@ -189,22 +189,11 @@ def was_resumed(p):
 def check(case):
     w = World(case)
     DET.reseed("C13", case.get("salt", 0))
-    excluded = None
     for i, op in enumerate(case["ops"]):
         r = step(w, i, op)
         if r is not None:
-            if r.sig.startswith("resumption-refusal-breaks-connection:"
-                                "ticket:"):
-                # confirmed root cause (known finding): note it and keep
-                # exploring the rest of the history behind it
-                excluded = excluded or r
-                w.labels.append("excluded:ticket-declined")
-                continue
             return r
     nt = w.resumes > 0 and w.changed
-    if excluded is not None:
-        excluded.labels = sorted(set(w.labels))
-        return excluded
     return good(nt=nt, labels=sorted(set(w.labels)))
 
 
